@@ -266,13 +266,21 @@ func genChunks(ch chooser, n int) []int {
 	return out
 }
 
-func genGet(ch chooser, first bool, n int) Get {
+var getKinds = []string{"ok", "status", "full200", "full200-cr", "wrong-off", "wrong-bytes", "other-blob", "no-cr", "416"}
+
+// genGet draws the answer to one GET. profile: 0 = first GET of a pass
+// (mostly conforming), 1 = free form, 2 = answer to a range resume (hostile
+// kinds are frequent).
+func genGet(ch chooser, profile int, n int) Get {
 	var g Get
 	wk := []int{55, 12, 5, 3, 8, 7, 4, 3, 3}
-	if first {
+	switch profile {
+	case 0:
 		wk = []int{80, 12, 1, 1, 2, 2, 2, 0, 0}
+	case 2:
+		wk = []int{36, 11, 8, 6, 12, 12, 5, 5, 5}
 	}
-	g.Kind = []string{"ok", "status", "full200", "full200-cr", "wrong-off", "wrong-bytes", "other-blob", "no-cr", "416"}[weighted(ch, "getkind", wk...)]
+	g.Kind = getKinds[weighted(ch, "getkind", wk...)]
 	switch g.Kind {
 	case "status":
 		g.Status = []int{500, 502, 504, 429, 408, 503, 404, 403, 416}[weighted(ch, "status", 30, 15, 15, 10, 10, 8, 4, 4, 4)]
@@ -304,6 +312,26 @@ func genGet(ch chooser, first bool, n int) Get {
 	return g
 }
 
+// genDrop is a conforming first answer whose body breaks strictly inside the
+// stream (so that the client resumes with a Range request).
+func genDrop(ch chooser, n int) Get {
+	g := Get{Kind: "ok", Fault: []string{"truncate", "truncate-clean"}[weighted(ch, "dropkind", 80, 20)]}
+	if n >= 2 {
+		switch weighted(ch, "dropat", 25, 25, 25, 25) {
+		case 0:
+			g.At = 1
+		case 1:
+			g.At = n / 2
+		case 2:
+			g.At = n - 1
+		case 3:
+			g.At = ch.Int(1, n-1, "dropatn")
+		}
+		g.At = min(max(g.At, 1), n-1)
+	}
+	return g
+}
+
 func genPass(ch chooser, c *Case, idx int, n int) Pass {
 	var p Pass
 	pNone := 45
@@ -325,9 +353,23 @@ func genPass(ch chooser, c *Case, idx int, n int) Pass {
 		}
 		p.ZeroNilAtEnd = chance(ch, "zeronil", 1, 4)
 	case "reg":
-		k := weighted(ch, "ngets", 30, 30, 22, 12, 6)
-		for i := 0; i < k; i++ {
-			p.Gets = append(p.Gets, genGet(ch, i == 0, n))
+		switch weighted(ch, "script", 30, 45, 25) {
+		case 0: // conforming server, no faults
+		case 1: // a connection drop inside the body, then the answers to the range resumes
+			p.Gets = append(p.Gets, genDrop(ch, n))
+			k := 1 + weighted(ch, "nresume", 55, 30, 15)
+			for i := 0; i < k; i++ {
+				p.Gets = append(p.Gets, genGet(ch, 2, n))
+			}
+		case 2: // free form
+			k := 1 + weighted(ch, "ngets", 40, 30, 20, 10)
+			for i := 0; i < k; i++ {
+				prof := 1
+				if i == 0 {
+					prof = 0
+				}
+				p.Gets = append(p.Gets, genGet(ch, prof, n))
+			}
 		}
 	case "ocidir":
 		p.Replace = []string{"", "rename", "keep"}[weighted(ch, "replace", 70, 20, 10)]
@@ -391,7 +433,7 @@ func gen(ch chooser, set string) Case {
 		c.Backing = []string{"reg", "ocidir", "none"}[weighted(ch, "backing", 50, 30, 20)]
 	}
 	if c.Entry == "reg" || c.Backing == "reg" {
-		c.RetryLimit = []int{3, 1, 2, 4, 6}[weighted(ch, "retry", 40, 8, 17, 20, 15)]
+		c.RetryLimit = []int{3, 1, 2, 4, 6}[weighted(ch, "retry", 40, 5, 15, 22, 18)]
 		c.ReqConcurrent = []int{50, 0, 1, 2}[weighted(ch, "conc", 60, 25, 5, 10)]
 		c.Redirect = chance(ch, "redirect", 1, 6)
 	}
@@ -416,7 +458,9 @@ func gen(ch chooser, set string) Case {
 // normalise clamps every field to its domain so that replayed / fuzz-decoded /
 // hand-written cases are always interpretable (total).
 func normalise(c *Case) {
-	if entrySets["all"][0] != c.Entry && c.Entry != "data" && c.Entry != "reg" && c.Entry != "ocidir" {
+	switch c.Entry {
+	case "reader", "reg", "ocidir", "data":
+	default:
 		c.Entry = "reader"
 	}
 	if c.Algo != "sha512" {
